@@ -91,6 +91,21 @@ let dispatch (op : string) (t : toks) : string =
                   hs_mycall = mycall; hs_locator = locator; hs_master = master;
                   hs_gzip = gzip; hs_cb = cb } in
       out_option out_bytes (send_handshake cfg challenge)
+  | "dec2md" ->
+      let neg = get_bool t in let m = get_int t in let k = get_int t in let lat = get_bool t in
+      out_bytes (dec_to_min_dec neg (n_of_int m) (n_of_int k) lat)
+  | "course" ->
+      let d = get_int t in let mag = get_bool t in
+      out_option out_bytes (course_string (z_of_int d) mag)
+  | "posrep" ->
+      let date = get_bytes t in
+      let coord t = let neg = get_bool t in let m = get_int t in let k = get_int t in
+                    ((neg, n_of_int m), n_of_int k) in
+      let lat = get_option t coord in let lon = get_option t coord in
+      let speed = get_option t get_bytes in let course = get_option t get_bytes in
+      let comment = get_bytes t in
+      out_bytes (posrep_body { pr_date = date; pr_lat = lat; pr_lon = lon; pr_speed = speed;
+                               pr_course = course; pr_comment = comment })
   | _ -> raise Not_found
 
 let () =
